@@ -182,3 +182,6 @@ def run(ctx: Ctx, rep: Report, tier: str):
     definition_holds(ctx, rep, "C04.R9", "SyncEntry.is_path_change", "a rename is not propagated as a rename")
     definition_holds(ctx, rep, "C04.R9", "SyncEntry.is_rename", "a rename is not propagated as a rename")
     definition_holds(ctx, rep, "C04.R9", "SyncEntry.is_trash", "a live entry's row is deleted / a dead one kept")
+    from rules.common import creation_dispatch
+    rep.rule("C04.R10", "creations and renames are dispatched apart (C02.R12): a rename is propagated by handle_rename, never re-created; a creation never renames", 4)
+    creation_dispatch(ctx, rep, "C04.R10")
